@@ -399,6 +399,7 @@ func main() {
 	r := vu.NewRng(*seed)
 	o := vu.NewOut(*out)
 	defer o.Close()
+	witnesses(o)
 	for h := 0; h < *n+*nbig; h++ {
 		runHistory(r, o, h, h >= *n, *flips, h-*n)
 	}
@@ -855,33 +856,24 @@ func runHistory(r *vu.Rng, o *vu.Out, hid int, big bool, nflips int, bigNo int) 
 				break
 			}
 		}
-		passed := func(q int64, sz int64) (reached bool, beyond bool) {
+		// accepted = the engine was told to Skip the record itself (the reader verified and passed it);
+		// beyond = some event behind the record was delivered.  A replay that stops earlier for any reason never
+		// "reached" the record (the property only speaks about reaching it).
+		passed := func(q int64, sz int64) (accepted bool, beyond bool) {
 			for _, e := range ob.evs {
 				if e.off == q && e.kind == 'S' && e.n == sz {
-					reached, beyond = true, true // Skip of the record itself: it was accepted
+					accepted = true
 				}
 				if e.off > q {
 					beyond = true
 				}
 			}
-			eo := int64(0)
-			if len(ob.evs) > 0 {
-				l := ob.evs[len(ob.evs)-1]
-				eo = l.off + l.n
-				if l.kind == 'A' {
-					eo = l.off + pad4(int64(8+len(l.body)))
-				}
-			}
-			if eo == q {
-				reached = true
-			}
 			return
 		}
 		if q >= 0 {
 			sameFile := fileOf(q) == fi
-			reached, beyond := passed(q, 20)
-			bad := beyond || (reached && ob.err != 1)
-			if bad {
+			accepted, beyond := passed(q, 20)
+			if accepted || beyond {
 				name := "flip_detected_at_next_crc_record"
 				if !sameFile {
 					name = "flip_detected_at_next_crc_record_across_rotation"
@@ -892,8 +884,8 @@ func runHistory(r *vu.Rng, o *vu.Out, hid int, big bool, nflips int, bigNo int) 
 		}
 		if qrot >= 0 && (q < 0 || qrot < q) {
 			// levRotateTo carries the running crc as well; the reader ignores it (finding F-C18a)
-			reached, beyond := passed(qrot, 36)
-			if beyond || (reached && ob.err != 1) {
+			accepted, beyond := passed(qrot, 36)
+			if accepted || beyond {
 				o.Fail("flip_detected_at_rotate_crc", line, fmt.Sprintf("%s %s (global byte %d) next levRotateTo@%d err=%d(%s)", desc, m.text(), g, qrot, ob.err, ob.errText))
 			}
 			o.Hist["flip_before_rotate"]++
@@ -941,4 +933,74 @@ func joinZ(xs []int64) string {
 		s[i] = vu.Z(x)
 	}
 	return strings.Join(s, ";")
+}
+
+// writeSimple runs the real writer on a fresh in-memory binlog and returns the chunk files.
+func writeSimple(chunk uint32, payloads [][]byte) []nfile {
+	fs := gofs.NewThreadSafeMemoryFs()
+	_ = fs.TempDir()
+	zero := time.Duration(0)
+	opts := fsbinlog.Options{PrefixPath: prefix, Magic: schemaMagic, Fs: fs, MaxChunkSize: chunk, WriteCallDelay: &zero}
+	if _, err := fsbinlog.CreateEmptyFsBinlog(opts); err != nil {
+		panic(err)
+	}
+	bl, _ := fsbinlog.NewFsBinlog(nil, opts)
+	eng := newEngine(0, fs)
+	done := make(chan error, 1)
+	go func() { done <- bl.Run(0, nil, nil, eng) }()
+	<-eng.ready
+	off := int64(hdrLen)
+	for _, p := range payloads {
+		var err error
+		if off, err = bl.AppendASAP(off, frame(p)); err != nil {
+			panic(err)
+		}
+	}
+	bl.RequestShutdown()
+	if err := <-done; err != nil {
+		panic(err)
+	}
+	return listFiles(fs)
+}
+
+// witnesses replays the minimal reproducers of the recorded findings on the real code (the same inputs as the
+// _refuted theorems in Props/C18.v: two appends [1 2 3 4 5] and [9 9], MaxChunkSize 1, so every append rotates).
+func witnesses(o *vu.Out) {
+	files := writeSimple(1, [][]byte{{1, 2, 3, 4, 5}, {9, 9}})
+	if len(files) != 3 || len(files[0].data) != 96 {
+		o.Finding("F-C18a", "witness-not-applicable")
+		o.Finding("F-C18b", "witness-not-applicable")
+		return
+	}
+	napplies := func(ob robs) int {
+		n := 0
+		for _, e := range ob.evs {
+			if e.kind == 'A' {
+				n++
+			}
+		}
+		return n
+	}
+	// F-C18a: (1) one bit of the first event's body, in front of chunk 0's levRotateTo; (2) one bit inside that
+	// levRotateTo record (last byte of chunk 0), covered only by the next chunk's levRotateFrom.Crc32
+	a1 := replay(applyModif(files, modif{kind: 2, fi: 0, i: 52, b: 0}), 0, nil)
+	a2 := replay(applyModif(files, modif{kind: 2, fi: 0, i: 95, b: 0}), 0, nil)
+	o.Hist[fmt.Sprintf("witness F-C18a body-flip err=%d", a1.err)]++
+	o.Hist[fmt.Sprintf("witness F-C18a rotate-record-flip err=%d", a2.err)]++
+	if a1.err == 0 || a2.err == 0 {
+		o.Finding("F-C18a", "reproduced")
+	} else {
+		o.Finding("F-C18a", "gone")
+	}
+	// F-C18b: cut 10 bytes (scan error) and 2 bytes (panic) into the header of the newest chunk
+	last := files[len(files)-1].start
+	b1 := replay(applyModif(files, modif{kind: 1, k: last + 10}), 0, nil)
+	b2 := replay(applyModif(files, modif{kind: 1, k: last + 2}), 0, nil)
+	o.Hist[fmt.Sprintf("witness F-C18b cut+10 err=%d events=%d", b1.err, napplies(b1))]++
+	o.Hist[fmt.Sprintf("witness F-C18b cut+2 err=%d events=%d", b2.err, napplies(b2))]++
+	if b1.err == 0 && napplies(b1) == 2 && b2.err == 0 && napplies(b2) == 2 {
+		o.Finding("F-C18b", "gone")
+	} else {
+		o.Finding("F-C18b", "reproduced")
+	}
 }
